@@ -403,3 +403,67 @@ func (w *World) afterOK(top *ssa.Function, ins ssa.Instruction, guard func(strin
 	}
 	return sites, true
 }
+
+// ruleTrueOnlyUnder: a predicate function answers true only where a branch fact satisfying
+// `under` (with positive polarity) dominates the answer - the constant true behind such a
+// test, or (for a returned expression) the test itself.
+func ruleTrueOnlyUnder(c *Ctx, r *Report, clause, fnKey, key string, under func(a *sliceAtoms, cnd ssa.Value) bool, desc string) {
+	fi := need(c, r, clause, fnKey)
+	if fi == nil {
+		return
+	}
+	w := c.W
+	viol := ""
+	var sites []string
+	nTrue := 0
+	var answer func(v ssa.Value, b *ssa.BasicBlock, pos string, depth int)
+	answer = func(v ssa.Value, b *ssa.BasicBlock, pos string, depth int) {
+		switch x := v.(type) {
+		case *ssa.Const:
+			if !isBoolConst(x, true) {
+				return
+			}
+			nTrue++
+			for _, f := range dominatingFacts(b) {
+				cnd, pol := unwrapNot(f.Cond, f.Pol)
+				if pol && under(sliceOf(cnd), cnd) {
+					return
+				}
+			}
+			viol = fmt.Sprintf("%s: %s answers true on a path where it has not established that %s", pos, fnKey, desc)
+		case *ssa.Phi:
+			if depth > 6 {
+				return
+			}
+			for i, e := range x.Edges {
+				answer(e, x.Block().Preds[i], pos, depth+1)
+			}
+		default:
+			cnd, pol := unwrapNot(v, true)
+			if pol && under(sliceOf(cnd), cnd) {
+				nTrue++
+				return
+			}
+			// a computed answer: some operand must carry the required test
+			if under(sliceOf(v), v) {
+				nTrue++
+				return
+			}
+			viol = fmt.Sprintf("%s: %s returns an answer that does not rest on %s", pos, fnKey, desc)
+		}
+	}
+	for _, ex := range exitsOf(fi.SSA) {
+		if ex.Ret == nil || len(ex.Ret.Results) == 0 {
+			continue
+		}
+		if bt, ok := ex.Ret.Results[0].Type().Underlying().(*types.Basic); !ok || bt.Kind() != types.Bool {
+			continue
+		}
+		sites = append(sites, w.pos(retPos(ex)))
+		answer(unspill(ex.Ret.Results[0], ex.Block), ex.Block, w.pos(retPos(ex)), 0)
+	}
+	if nTrue == 0 && viol == "" {
+		viol = fnKey + " never answers true"
+	}
+	r.add(clause, "guardedby", fnKey+":"+key, fnKey+" answers true only when "+desc, []string{fnKey}, sites, viol)
+}
